@@ -369,15 +369,18 @@ def _unbits(b):
     return struct.unpack('<d', b)[0]
 
 
-MAX_EXACT_TERMS = 25
+MAX_EXACT_TERMS = {'quick': 60, 'thorough': 120}
 
 
 def check_epsalg(terms, recs):
     """Returns (violation detail or None, counters)."""
-    cnt = {'eps_checked': 0, 'eps_skipped_margin': 0, 'eps_skipped_cond': 0, 'eps_recovery_checked': 0}
+    import os
+    cnt = {'eps_checked': 0, 'eps_skipped_margin': 0, 'eps_skipped_cond': 0, 'eps_checked_beyond_25': 0,
+           'max_eps_checked_k': 0}
     tab = ExactTable()
+    cap = MAX_EXACT_TERMS.get(os.environ.get('VERIF_TIER_EFFECTIVE', 'quick'), 60)
     for k, rec in enumerate(recs):
-        if k >= MAX_EXACT_TERMS:
+        if k >= cap:
             break
         r = tab.push(terms[k])
         if rec[0] != 'val':
@@ -397,6 +400,9 @@ def check_epsalg(terms, recs):
             continue
         tol = max(1e3 * float(werr), 64 * EPS * scale)
         cnt['eps_checked'] += 1
+        if k >= 25:
+            cnt['eps_checked_beyond_25'] += 1
+        cnt['max_eps_checked_k'] = max(cnt['max_eps_checked_k'], k)
         if not (abs(Fraction(got) - exact) <= tol):
             return {'kind': 'epsalg_table', 'k': k, 'got': got, 'exact': ex, 'witness': w,
                     'tol': tol}, cnt
@@ -527,7 +533,10 @@ def judge(plan, result, refs):
             else:
                 detail, cnt = check_dea(terms, recs, extra, limexp)
             for kk, vv in cnt.items():
-                stats[kk] = stats.get(kk, 0) + vv
+                if kk.startswith('max_'):
+                    stats[kk] = max(stats.get(kk, 0), vv)
+                else:
+                    stats[kk] = stats.get(kk, 0) + vv
         if nfed >= 3:
             shapes.add((cls, limexp, fam, min(nfed, 64), name in interleaved))
         if detail is not None:
@@ -653,6 +662,8 @@ def evidence(tier, seed, by_mode, det, n_viol, known_hits, errors, wall):
             'families': s.get('families', {}),
             'limexp_values_seen': sorted(s.get('limexp_seen', set())),
             'epsalg_exact_checks': s.get('eps_checked', 0),
+            'epsalg_exact_checks_beyond_25_terms': s.get('eps_checked_beyond_25', 0),
+            'epsalg_longest_prefix_checked_exactly': s.get('max_eps_checked_k', 0) + 1,
             'epsalg_skipped_vanishing_margin': s.get('eps_skipped_margin', 0),
             'epsalg_skipped_ill_conditioned': s.get('eps_skipped_cond', 0),
             'dea_feeds_checked_total_finite': s.get('dea_checked', 0),
@@ -692,7 +703,7 @@ def evidence(tier, seed, by_mode, det, n_viol, known_hits, errors, wall):
             'the harness exact-rational Wynn table (checks/c14.py ExactTable) is the reference for EpsAlg',
             'EpsAlg tolerance = max(1e3*|double witness - exact|, 64 eps*|exact|); steps whose witness '
             'error exceeds 1e-6 relative, or with a table difference below 1e-9 relative / 1e-50 absolute, are skipped',
-            'exact comparison only for prefixes of <= 25 terms; beyond that only totality/isolation/floor',
+            'exact EpsAlg comparison for prefixes of <= 60 terms (quick) / 120 (thorough); beyond that only isolation',
             'finite-for-finite explored for |terms| <= 1e100',
         ],
     }
